@@ -31,13 +31,17 @@ OTHERS = ["read_abs", "read_rel", "read_both", "refresh", "copy_replace", "copy_
           "duration_relation", "is_consistent", "is_empty", "to_midi_track", "split_bars", "eq_dunder"]
 OPS = MUTATORS + OTHERS
 FLOORS = {"quick": {"seq_inv.views_events.armed": 20000, "to_rel.events.armed": 5000, "to_abs.events.armed": 5000,
-                    "c04.model_compare": 6000, "#c04.visit.": 135},
-          "thorough": {"seq_inv.views_events.armed": 1000000, "#c04.visit.": 140}}
+                    "c04.model_compare": 6000, "#c04.visit.": 125},
+          "thorough": {"seq_inv.views_events.armed": 1000000, "#c04.visit.": 125}}
 
 
 def _small_spec(rng, start=None):
     chans = rng.choice([(0,), (0,), (0, 1)])
     notes = gen.wf_notes(rng, rng.randint(0, 4), chans=chans, pitches=(60, 61, 62), tmax=60, lmin=1, lmax=30)
+    if rng.random() < 0.25:
+        # ill-formed but legal material: stacked / re-struck notes of one pitch, every tick on the common grids
+        notes = [[rng.choice(chans), rng.choice((60, 61)), 12 * rng.randrange(0, 5), 12 * rng.randint(1, 4), rng.randint(1, 127)]
+                 for _ in range(rng.randint(2, 4))]
     extra = gen.rand_extras(rng, rng.randint(0, 2), 70, kinds=("cc", "ts", "ks", "pc"), chans=chans)
     spec = {"notes": notes, "extra": extra, "start": start or rng.choice(["abs", "rel", "both"])}
     if rng.random() < 0.3:
